@@ -834,6 +834,86 @@ theorem observations_are_at_places (p : SeqPath) (items : List SeqItem) (n : Nat
   have := runFrom_pos p (SeqState.init p items) 0 items n o h
   omega
 
+/-! ### A function declared more than once with different default arguments (wave 13)
+
+`parse_function` asks `check_existing_functions` whether the name already has an overload with the same `param_types`;
+if so the **earlier id** is used and the later signature — with it the later `non_default_params` — is dropped
+(`SeqItem.redecl`: no change of state).  So the arity range of a candidate is the one of its *first* declaration. -/
+
+private theorem declared_skip_redecl (s : Nat) (pre₁ pre₂ : List SeqItem) (id nd : Nat) :
+    declared s (pre₁ ++ .redecl id nd :: pre₂) = declared s (pre₁ ++ pre₂) := by
+  induction pre₁ with
+  | nil => simp [declared]
+  | cons i is ih => cases i <;> simp [declared, ih]
+
+private theorem declaresType_skip_redecl (s : Nat) (pre₁ pre₂ : List SeqItem) (id nd : Nat) :
+    declaresType s (pre₁ ++ .redecl id nd :: pre₂) = declaresType s (pre₁ ++ pre₂) := by
+  induction pre₁ with
+  | nil => simp [declaresType]
+  | cons i is ih => cases i <;> simp [declaresType, ih]
+
+private theorem declaresTypeAnywhere_skip_redecl (pre₁ pre₂ : List SeqItem) (id nd : Nat) :
+    declaresTypeAnywhere (pre₁ ++ .redecl id nd :: pre₂) = declaresTypeAnywhere (pre₁ ++ pre₂) := by
+  induction pre₁ with
+  | nil => simp [declaresTypeAnywhere]
+  | cons i is ih => cases i <;> simp [declaresTypeAnywhere, ih]
+
+private theorem allDeclared_skip_redecl (pre₁ pre₂ : List SeqItem) (id nd : Nat) :
+    allDeclared (pre₁ ++ .redecl id nd :: pre₂) = allDeclared (pre₁ ++ pre₂) := by
+  induction pre₁ with
+  | nil => simp [allDeclared]
+  | cons i is ih => cases i <;> simp [allDeclared, ih]
+
+/-- **What the code does with a redeclaration: nothing.**  For every unit, on every path, at every place: a later
+    declaration (prototype or definition) of a function that is already declared — whatever default arguments it
+    carries — changes the verdict of no call site below it: the site shows the resolution on the *first* declarations
+    (`site_verdict_is_resolution_of_visible` on the unit with and without the redeclaration).  This is the model's (= the
+    code's) behaviour, not the property: see `redeclared_defaults_are_order_dependent`. -/
+theorem first_declaration_fixes_the_defaults (p : SeqPath) (pre₁ pre₂ post : List SeqItem) (id nd m : Nat)
+    (x : List TArg) (a : List ETy) (o : SiteObs) :
+    ((pre₁ ++ .redecl id nd :: pre₂).length, o) ∈ runSeq p ((pre₁ ++ .redecl id nd :: pre₂) ++ .site m x a :: post) ↔
+      ((pre₁ ++ pre₂).length, o) ∈ runSeq p ((pre₁ ++ pre₂) ++ .site m x a :: post) := by
+  rw [site_verdict_is_resolution_of_visible, site_verdict_is_resolution_of_visible]
+  have : visibleAt p (pre₁ ++ .redecl id nd :: pre₂) post m = visibleAt p (pre₁ ++ pre₂) post m := by
+    cases p <;>
+      simp [visibleAt, declared_skip_redecl, declaresType_skip_redecl, declaresTypeAnywhere_skip_redecl,
+        allDeclared_skip_redecl, List.append_assoc]
+  rw [this]
+
+/-- **Witness against the property** (the negation of "never on the order the candidates were declared in", for the
+    declarations of ONE function; replayed on the real type checker by the last lines of corpus/C16.txt, recorded in
+    known_findings.jsonl).  The same two declarations `R0 f(int, int);` and `R0 f(int, int = 0);` followed by the same
+    call `f(x)`: *unmatched* when the one without the default value stands first, *accepted* when it stands second.
+    With a second overload `R1 f(float)` around, the same unit **selects another overload** depending on which
+    declaration of `f(int, float)` comes first. -/
+theorem redeclared_defaults_are_order_dependent :
+    let i : TParam := ⟨.conc ⟨{}, .scalar .int32⟩, .in⟩
+    let fl : TParam := ⟨.conc ⟨{}, .scalar .float32⟩, .in⟩
+    let arg : List ETy := [⟨⟨{}, .scalar .int32⟩, .lvalue⟩]
+    let obs := fun (u : List SeqItem) => (runSeq .free u).map (fun x => (x.1, x.2.normalize))
+    obs [.decl 0 ⟨0, [], [i, i], 2⟩, .redecl 0 1, .site 0 [] arg] = [(2, .verdict .unmatched)] ∧
+    obs [.decl 0 ⟨0, [], [i, i], 1⟩, .redecl 0 2, .site 0 [] arg] = [(2, .verdict (.accepted 0))] ∧
+    obs [.decl 0 ⟨0, [], [i, fl], 2⟩, .decl 0 ⟨1, [], [fl], 1⟩, .redecl 0 1, .site 0 [] arg] = [(3, .verdict (.accepted 1))] ∧
+    obs [.decl 0 ⟨0, [], [i, fl], 1⟩, .decl 0 ⟨1, [], [fl], 1⟩, .redecl 0 2, .site 0 [] arg] = [(3, .verdict (.accepted 0))] := by
+  decide
+
+/-- **Witness against the property, function templates** (replayed by corpus/C16.txt, recorded in known_findings.jsonl).
+    `template<typename T> R0 f(T a);` followed by its definition `template<typename T> R0 f(T a) { .. }` - one function
+    template, declared and then defined - and the call `f(x)`: the two declarations are two overloads for the type
+    checker (`elaborate`), both match exactly, the call is *ambiguous between the function and itself*; the same call
+    between the two declarations is accepted.  With parameter types that mention no template parameter the later
+    declaration is combined with the first (`redecl`), and the call after both is accepted. -/
+theorem redeclared_template_is_a_second_overload :
+    let t : TCand := ⟨0, [.type], [⟨.tvar 0, .in⟩], 1⟩
+    let u : TCand := ⟨0, [.type], [⟨.conc ⟨{}, .scalar .int32⟩, .in⟩], 1⟩
+    let arg : List ETy := [⟨⟨{}, .scalar .int32⟩, .lvalue⟩]
+    let obs := fun (u : List SeqItem) => (runSeq .free (elaborate u)).map (fun x => (x.1, x.2.normalize))
+    obs [.decl 0 t, .site 0 [] arg, .redecl 0 1, .site 0 [] arg] =
+      [(1, .verdict (.accepted 0)), (3, .verdict (.ambiguous [0, 0]))] ∧
+    obs [.decl 0 u, .site 0 [.type ⟨{}, .scalar .int32⟩] arg, .redecl 0 1, .site 0 [.type ⟨{}, .scalar .int32⟩] arg] =
+      [(1, .verdict (.accepted 0)), (3, .verdict (.accepted 0))] := by
+  decide
+
 /-- non-vacuity, and the shape of the seeded defect "memoised resolution": `f(float)`; call `f(int_var)`; `f(int)`;
     the same call again, once more after the definition of `f(float)`, and from inside a template instantiated before
     and after: the second call sees two candidates and selects the exact one -/
